@@ -18,6 +18,21 @@ What is EXPLORED (part b, ctx.explored): the real `decode` of EVERY registered d
   context kwargs as `app.run_once` passes them, through the verified monitor `recoveryOk` evaluated both in Python
   (independent arithmetic) and by the Lean driver on the real output; never-raises / never-None observed directly;
   every decode under a time limit (a timeout is counted, not a violation).
+  Input classes of part (b) beyond `all syndromes of small lattices + random errors`:
+  * SHAPE grid (size_grid): tall / wide x same / opposite parity of (rows, cols) up to 8 for every matching decoder
+    (PlanarMWPM, PlanarCMWPM, ToricMWPM — with their ties — RotatedPlanarSMWPM, RotatedToricSMWPM), with errors
+    LOCALISED on the rim (localised_errors: a single X / Y / Z on every boundary and corner qubit, all Pauli pairs
+    around each corner, runs along and the whole of each boundary; on a torus: next to the periodic seam), in
+    finite-bias contexts and in the infinite-bias context (Y-only errors, pure-Y model); the tensor-network decoders
+    get a seed-rotated sample of the same errors on their existing non-square sizes (sizes not enlarged);
+  * PlanarY (a look-up whose branch depends on gcd(R, C)): all 2 <= R, C <= 12 (thorough) / every pair with
+    gcd not in {1, R, C} + small + seed-rotated coprime and dividing pairs (quick); Y-only errors of every weight 1..6,
+    all weight-<=2 errors within one boundary, `several defects on one boundary` (boundary_subset_errors: subsets of
+    sizes 3..6 and stride patterns), the rim / corner errors, random spread weights.
+  Quick tier, lattices with more than 100 qubits: the Lean evaluation of the monitor is made on every 4th accepted output
+  and every rejected one (the Python evaluation on all).
+  Failing-input search: a correspondence break of c02_smwpm (graph / corners / path / recovery of an SMWPM decoder) is
+  followed by a sweep of the real decoder over the recorded size, its transpose and the shape grid (search_smwpm).
 Known finding D2: PlanarCMWPMDecoder(max_iterations=0) — reported with key 'PlanarCMWPMDecoder.max_iterations=0'.
 """
 import itertools
@@ -30,9 +45,20 @@ import numpy as np
 from qv import core
 from qv.core import bits, mat
 
+_core_bits = bits
+
+
+def bits(v):  # noqa: F811 - same wire format as core.bits, vectorised (sizes up to 12x12: 530-bit operators)
+    a = np.asarray(v)
+    if a.ndim != 1 or a.size == 0 or a.dtype.kind not in 'iub':
+        return _core_bits(v)
+    return ((a != 0).astype(np.uint8) + 48).tobytes().decode('ascii')
+
+
 LEVEL = 'proof'
 KEY_D2 = 'PlanarCMWPMDecoder.max_iterations=0'
 TL = 20.0  # seconds per real decode
+LEAN_ALL_N, LEAN_EVERY = 100, 4
 
 RULE = ('(a) modelled constructions: for every lattice size up to the tier bound x (all syndromes when the syndrome '
         'space is small, else all single / sampled double defects + random errors of spread weights): sample_recovery '
@@ -40,7 +66,10 @@ RULE = ('(a) modelled constructions: for every lattice size up to the tier bound
         'final recovery from the recorded gt.mwpm result, recorded graph vs modelled graph, recorded matching vs '
         'isPerfectMatchingOfGraph; TN answer = sample x logical coset; NaiveDecoder — all compared exactly with the '
         'Lean model. (b) every registered decoder x parameterisations x context (error model, probability in (0,1)): '
-        'real decode, monitor synd(S, recovery) == syndrome in Python and in Lean (one protocol line per batch). '
+        'real decode, monitor synd(S, recovery) == syndrome in Python and in Lean (one protocol line per batch); incl. the '
+        'shape grid (tall / wide x parity, up to 8) with rim- and corner-localised errors in finite- and infinite-bias '
+        'contexts for the matching decoders and PlanarY on sizes up to 12x12 (all gcd classes) with Y-only errors of '
+        'weights 1..6 and several defects on one boundary. '
         'non-trivial = syndrome not all-zero; distinct = distinct protocol lines')
 
 
@@ -224,6 +253,170 @@ def defect_syndromes(ctx, m, max_pairs):
     return out
 
 
+# ------------------------------------------------------------------------------------------ lattice geometry classes
+
+def size_grid(ctx, lo, hi, step=1, n_extra=2, squares=1):
+    """(rows, cols) with lo <= rows, cols <= hi covering the four SHAPE classes tall / wide x same / opposite parity
+    of rows and cols (plus squares). thorough: all of them; quick: the smallest of each class + `n_extra` seed-rotated
+    further members of each class + `squares` seed-rotated squares"""
+    classes = {}
+    for r in range(lo, hi + 1, step):
+        for c in range(lo, hi + 1, step):
+            if r != c:
+                classes.setdefault(('tall' if r > c else 'wide', 'same' if (r - c) % 2 == 0 else 'opp'), []).append((r, c))
+    sq = [(r, r) for r in range(lo, hi + 1, step)]
+    if not ctx.quick():
+        return sorted(set(sum(classes.values(), []) + sq))
+    out = []
+    for key in sorted(classes):
+        members = sorted(classes[key], key=lambda t: (t[0] * t[1], t))
+        out.append(members[0])
+        out += ctx.rng.sample(members[1:], min(n_extra, len(members) - 1))
+    out += ctx.rng.sample(sq, min(squares, len(sq)))
+    return sorted(set(out))
+
+
+_GEOM = {}
+
+
+def geometry(spec):
+    """(lines, corners) of a lattice in the code's own site indices. lines: the four boundaries, each an ordered list
+    of the qubits on it; corners: per corner the corner qubit followed by its neighbours along either boundary (and, on
+    the planar lattice, the diagonal neighbour). On a torus the `boundaries` are the rows / columns next to the periodic
+    seam and the neighbours of a corner are taken ACROSS the seam."""
+    t = tuple(spec)
+    if t in _GEOM:
+        return _GEOM[t]
+    k = spec[0]
+    code = code_of(spec)[0]
+    if k == 'planar':
+        mr, mc = code.bounds
+        lines = {'N': [(0, c) for c in range(0, mc + 1, 2)], 'S': [(mr, c) for c in range(0, mc + 1, 2)],
+                 'W': [(r, 0) for r in range(0, mr + 1, 2)], 'E': [(r, mc) for r in range(0, mr + 1, 2)]}
+        corners = [((0, 0), (0, 2), (2, 0), (1, 1)), ((0, mc), (0, mc - 2), (2, mc), (1, mc - 1)),
+                   ((mr, 0), (mr, 2), (mr - 2, 0), (mr - 1, 1)), ((mr, mc), (mr, mc - 2), (mr - 2, mc), (mr - 1, mc - 1))]
+        ok = lambda i: code.is_in_bounds(i) and code.is_site(i)  # noqa: E731
+    elif k in ('rplanar', 'rtoric'):
+        mx, my = code.site_bounds if k == 'rplanar' else code.bounds
+        lines = {'N': [(x, my) for x in range(mx + 1)], 'S': [(x, 0) for x in range(mx + 1)],
+                 'W': [(0, y) for y in range(my + 1)], 'E': [(mx, y) for y in range(my + 1)]}
+        if k == 'rplanar':
+            corners = [((0, 0), (1, 0), (0, 1)), ((mx, 0), (mx - 1, 0), (mx, 1)), ((0, my), (1, my), (0, my - 1)),
+                       ((mx, my), (mx - 1, my), (mx, my - 1))]
+        else:
+            corners = [((0, 0), (mx, 0), (0, my)), ((mx, 0), (0, 0), (mx, my)), ((0, my), (mx, my), (0, 0)),
+                       ((mx, my), (0, my), (mx, 0))]
+        ok = lambda i: 0 <= i[0] <= mx and 0 <= i[1] <= my  # noqa: E731
+    elif k == 'toric':
+        R, C = code.size
+        lines, corners = {}, []
+        for tt in (0, 1):
+            lines['N%d' % tt] = [(tt, 0, c) for c in range(C)]
+            lines['S%d' % tt] = [(tt, R - 1, c) for c in range(C)]
+            lines['W%d' % tt] = [(tt, r, 0) for r in range(R)]
+            lines['E%d' % tt] = [(tt, r, C - 1) for r in range(R)]
+            corners += [((tt, 0, 0), (tt, 0, C - 1), (tt, R - 1, 0), (1 - tt, 0, 0)),
+                        ((tt, 0, C - 1), (tt, 0, 0), (tt, R - 1, C - 1), (1 - tt, 0, C - 1)),
+                        ((tt, R - 1, 0), (tt, R - 1, C - 1), (tt, 0, 0), (1 - tt, R - 1, 0)),
+                        ((tt, R - 1, C - 1), (tt, R - 1, 0), (tt, 0, C - 1), (1 - tt, R - 1, C - 1))]
+        ok = lambda i: True  # noqa: E731
+    else:
+        raise ValueError(spec)
+    lines = {n: [i for i in l if ok(i)] for n, l in lines.items()}
+    cs = []
+    for c in corners:
+        seen = []
+        for i in c:
+            if ok(i) and i not in seen:
+                seen.append(i)
+        cs.append(tuple(seen))
+    _GEOM[t] = (lines, cs)
+    return _GEOM[t]
+
+
+def pauli_bsf(spec, assignment):
+    """bsf of the Pauli with the given {site index: 'X'|'Y'|'Z'} (later entries multiply onto earlier ones)"""
+    p = code_of(spec)[0].new_pauli()
+    for i, op in assignment:
+        p.site(op, i)
+    return np.array(p.to_bsf(), dtype=int)
+
+
+def localised_errors(spec, yonly=False):
+    """errors localised on the rim of the lattice: a single X / Y / Z on every boundary qubit (hence every corner
+    qubit), every pair of Paulis on two of the qubits around each corner (`pairs across a corner`), short runs from
+    either end of each boundary and the whole boundary. Y-only when `yonly`. Returns [(bsf, tag)], de-duplicated."""
+    lines, corners = geometry(spec)
+    ops = 'Y' if yonly else 'XYZ'
+    out, seen = [], set()
+
+    def add(assignment, tag):
+        e = pauli_bsf(spec, assignment)
+        b = bits(e)
+        if b not in seen and np.any(e):
+            seen.add(b); out.append((e, tag))
+    for name in sorted(lines):
+        for i in lines[name]:
+            for op in ops:
+                add([(i, op)], 'rim-single')
+    for c in corners:
+        for a, b in itertools.combinations(c, 2):
+            for oa in ops:
+                for ob in ops:
+                    add([(a, oa), (b, ob)], 'corner-pair')
+        for op in ops:
+            add([(i, op) for i in c], 'corner-all')
+    for name in sorted(lines):
+        l = lines[name]
+        for op in ops:
+            for k in (2, 3):
+                if len(l) > k:
+                    add([(i, op) for i in l[:k]], 'rim-run'); add([(i, op) for i in l[-k:]], 'rim-run')
+            add([(i, op) for i in l], 'rim-all')
+            add([(i, op) for i in l[::2]], 'rim-alternate')
+    return out
+
+
+def boundary_subset_errors(ctx, spec, op='Y', all_upto=2, cap3=None, n_more=6, max_w=6):
+    """`several defects on ONE boundary`: for each boundary all subsets of its qubits of size <= all_upto, all (or `cap3`
+    sampled) subsets of size 3, `n_more` sampled subsets of each size 4..max_w and the stride-1 / stride-2 prefixes
+    from either end, all with the same Pauli `op`."""
+    lines, _ = geometry(spec)
+    out, seen = [], set()
+
+    def add(sites, tag):
+        e = pauli_bsf(spec, [(i, op) for i in sites])
+        b = bits(e)
+        if b not in seen:
+            seen.add(b); out.append((e, tag))
+    for name in sorted(lines):
+        l = lines[name]
+        for w in range(1, min(all_upto, len(l)) + 1):
+            for sub in itertools.combinations(l, w):
+                add(sub, 'rim-w%d' % w)
+        for w in range(max(3, all_upto + 1), min(max_w, len(l)) + 1):
+            subs = list(itertools.combinations(range(len(l)), w)) if len(l) <= 16 else None
+            cap = (cap3 if w == 3 else n_more)
+            if subs is not None and (cap is None or len(subs) <= cap):
+                pick = subs
+            elif subs is not None:
+                pick = ctx.rng.sample(subs, cap)
+            else:
+                pick = [tuple(sorted(ctx.rng.sample(range(len(l)), w))) for _ in range(cap or 20)]
+            for sub in pick:
+                add([l[j] for j in sub], 'rim-w%d' % w)
+        for stride in (1, 2):
+            for seq in (l[::stride], l[::-1][::stride]):
+                for w in range(3, min(max_w, len(seq)) + 1):
+                    add(seq[:w], 'rim-stride%d' % stride)
+    return out
+
+
+def with_syndromes(spec, errs):
+    S = code_of(spec)[1]
+    return [(e, py_synd(S, e), tag) for e, tag in errs]
+
+
 # ------------------------------------------------------------------------------------------ recording gt.mwpm
 
 class Recorder:
@@ -331,6 +524,7 @@ class Acc:
         self.ctx = ctx
         self.by_decoder = {}
         self.batches = {}
+        self.skip = {}
         self.fail_counts = {}
 
     def note(self, dname, exhaustive):
@@ -340,6 +534,12 @@ class Acc:
 
     def push(self, spec, s, r, verdict):
         key = tuple(spec)
+        if self.ctx.quick() and verdict and len(r) > 2 * LEAN_ALL_N:
+            # quick tier, large lattices (the look-up decoder's sizes): the Lean evaluation of the monitor is made on
+            # every LEAN_EVERY-th accepted output and on every rejected one (the Python evaluation on all)
+            self.skip[key] = self.skip.get(key, 0) + 1
+            if self.skip[key] % LEAN_EVERY:
+                return
         b = self.batches.setdefault(key, [])
         b.append((bits(s), bits(r), verdict))
         if len(b) >= 250:
@@ -540,41 +740,62 @@ def tn_coset_case(ctx, spec, dspec, s, r, sample):
                        'syndrome': bits(s)})
 
 
+def planar_mwpm_case(ctx, acc, rec, spec, e, s, exh):
+    """one real PlanarMWPM decode: monitor + ties (final recovery from the recorded matchings, recorded graphs)"""
+    _, R, C = spec
+    dspec = D('PlanarMWPM')
+    rec.reset()
+    em = ctx.rng.choice(EMS_ANY); p = ctx.rng.choice(PS)
+    r = evaluate(ctx, acc, spec, dspec, em, p, e, s, exhaustive=exh)
+    if r is None or len(rec.calls) != 2:
+        if r is not None:
+            ctx.case('c02 planar.mwpm-calls', 'gt.mwpm called {} times'.format(len(rec.calls)),
+                     meta={'kind': 'mwpm', 'code': list(spec), 'decoder': [dspec[0], {}], 'syndrome': bits(s)})
+        return
+    (gP, mP), (gD, mD) = rec.calls
+    meta = {'kind': 'mwpm', 'code': list(spec), 'decoder': [dspec[0], {}], 'syndrome': bits(s), 'error': bits(e)}
+    pairs = lambda m: ';'.join('{}>{}'.format(idx2(a), idx2(b)) for a, b in m) or '_'  # noqa: E731
+    ctx.case('c02 planar.mwpm {} {} {} {} {}'.format(R, C, bits(s), pairs(mP), pairs(mD)),
+             bits(r) + ' pm=11', nontrivial=bool(np.any(s)), meta=meta)
+    ctx.case('c02 planar.graph {} {} {}'.format(R, C, bits(s)),
+             'P={} D={}'.format(graph_txt(gP, idx2), graph_txt(gD, idx2)), nontrivial=bool(np.any(s)),
+             meta=meta, post=post_graph)
+
+
 def run_planar_mwpm(ctx, acc, rec):
     q = ctx.quick()
     bound = 5 if q else 8
-    dspec = D('PlanarMWPM')
     for R in range(2, bound + 1):
         for C in range(2, bound + 1):
             spec = ('planar', R, C)
-            code, S, _ = code_of(spec)
             cases, exh = syndromes_for_tie(ctx, spec, 7 if q else 10, 40 if q else 250, 10 if q else 30)
             ctx.count('a_mwpm_size', 'planar:{}x{}{}'.format(R, C, ':all' if exh else ''))
             for e, s in cases:
-                rec.reset()
-                em = ctx.rng.choice(EMS_ANY); p = ctx.rng.choice(PS)
-                r = evaluate(ctx, acc, spec, dspec, em, p, e, s, exhaustive=exh)
-                if r is None or len(rec.calls) != 2:
-                    if r is not None:
-                        ctx.case('c02 planar.mwpm-calls', 'gt.mwpm called {} times'.format(len(rec.calls)),
-                                 meta={'kind': 'mwpm', 'code': list(spec), 'decoder': [dspec[0], {}],
-                                       'syndrome': bits(s)})
-                    continue
-                (gP, mP), (gD, mD) = rec.calls
-                meta = {'kind': 'mwpm', 'code': list(spec), 'decoder': [dspec[0], {}], 'syndrome': bits(s),
-                        'error': bits(e)}
-                pairs = lambda m: ';'.join('{}>{}'.format(idx2(a), idx2(b)) for a, b in m) or '_'  # noqa: E731
-                ctx.case('c02 planar.mwpm {} {} {} {} {}'.format(R, C, bits(s), pairs(mP), pairs(mD)),
-                         bits(r) + ' pm=11', nontrivial=bool(np.any(s)), meta=meta)
-                ctx.case('c02 planar.graph {} {} {}'.format(R, C, bits(s)),
-                         'P={} D={}'.format(graph_txt(gP, idx2), graph_txt(gD, idx2)), nontrivial=bool(np.any(s)),
-                         meta=meta, post=post_graph)
+                planar_mwpm_case(ctx, acc, rec, spec, e, s, exh)
+
+
+def toric_mwpm_case(ctx, acc, rec, spec, e, s, exh):
+    """one real ToricMWPM decode: monitor + ties"""
+    _, R, C = spec
+    dspec = D('ToricMWPM')
+    rec.reset()
+    em = ctx.rng.choice(EMS_ANY); p = ctx.rng.choice(PS)
+    r = evaluate(ctx, acc, spec, dspec, em, p, e, s, exhaustive=exh)
+    if r is None or len(rec.calls) != 2:
+        return
+    (g0, m0), (g1, m1) = rec.calls
+    meta = {'kind': 'mwpm', 'code': list(spec), 'decoder': [dspec[0], {}], 'syndrome': bits(s), 'error': bits(e)}
+    pairs = lambda m: ';'.join('{}>{}'.format(idx3(a), idx3(b)) for a, b in m) or '_'  # noqa: E731
+    ctx.case('c02 toric.mwpm {} {} {} {} {}'.format(R, C, bits(s), pairs(m0), pairs(m1)),
+             bits(r) + ' pm=11', nontrivial=bool(np.any(s)), meta=meta)
+    ctx.case('c02 toric.graph {} {} {}'.format(R, C, bits(s)),
+             'P={} D={}'.format(graph_txt(g0, idx3), graph_txt(g1, idx3)), nontrivial=bool(np.any(s)),
+             meta=meta, post=post_graph)
 
 
 def run_toric_mwpm(ctx, acc, rec):
     q = ctx.quick()
     bound = 5 if q else 8
-    dspec = D('ToricMWPM')
     for R in range(2, bound + 1):
         for C in range(2, bound + 1):
             spec = ('toric', R, C)
@@ -582,20 +803,7 @@ def run_toric_mwpm(ctx, acc, rec):
                                      doubles=40 if q else 200)
             ctx.count('a_mwpm_size', 'toric:{}x{}{}'.format(R, C, ':all' if exh else ''))
             for e, s, _ in cases:
-                rec.reset()
-                em = ctx.rng.choice(EMS_ANY); p = ctx.rng.choice(PS)
-                r = evaluate(ctx, acc, spec, dspec, em, p, e, s, exhaustive=exh)
-                if r is None or len(rec.calls) != 2:
-                    continue
-                (g0, m0), (g1, m1) = rec.calls
-                meta = {'kind': 'mwpm', 'code': list(spec), 'decoder': [dspec[0], {}], 'syndrome': bits(s),
-                        'error': bits(e)}
-                pairs = lambda m: ';'.join('{}>{}'.format(idx3(a), idx3(b)) for a, b in m) or '_'  # noqa: E731
-                ctx.case('c02 toric.mwpm {} {} {} {} {}'.format(R, C, bits(s), pairs(m0), pairs(m1)),
-                         bits(r) + ' pm=11', nontrivial=bool(np.any(s)), meta=meta)
-                ctx.case('c02 toric.graph {} {} {}'.format(R, C, bits(s)),
-                         'P={} D={}'.format(graph_txt(g0, idx3), graph_txt(g1, idx3)), nontrivial=bool(np.any(s)),
-                         meta=meta, post=post_graph)
+                toric_mwpm_case(ctx, acc, rec, spec, e, s, exh)
 
 
 def cnode_txt(code, graph_items, mates):
@@ -635,46 +843,51 @@ def cmwpm_configs(ctx):
     return out
 
 
+def cmwpm_case(ctx, acc, rec, spec, dspec, e, s, exh):
+    """one real PlanarCMWPM decode: monitor + ties (StepGrid.mwpm post-processing, recorded graphs, final recovery)"""
+    _, R, C = spec
+    code = code_of(spec)[0]
+    kw = dict(dspec[1])
+    mi = kw.get('max_iterations', 4)
+    rec.reset()
+    em = ctx.rng.choice(EMS_ANY); p = ctx.rng.choice(PS)
+    r = evaluate(ctx, acc, spec, dspec, em, p, e, s, exhaustive=exh)
+    if r is None:
+        return
+    meta = {'kind': 'cmwpm', 'code': list(spec), 'decoder': [dspec[0], kw], 'syndrome': bits(s), 'error': bits(e)}
+    if mi == 0:
+        ctx.case('c02 planar.cmwpm0 {} {}'.format(R, C), bits(r), nontrivial=bool(np.any(s)), meta=meta)
+        return
+    gc = rec.grid_calls
+    if len(gc) < 2 or gc[-1]['gt'] is None or gc[-2]['gt'] is None:
+        ctx.case('c02 planar.cmwpm-calls', 'StepGrid.mwpm called {} times'.format(len(gc)), meta=meta)
+        return
+    lastP = [c for i, c in enumerate(gc) if i % 2 == 0][-1]
+    lastD = [c for i, c in enumerate(gc) if i % 2 == 1][-1]
+    mP, gPtxt = cnode_txt(code, *lastP['gt'])
+    mD, gDtxt = cnode_txt(code, *lastD['gt'])
+    mt = lambda res: canon_pairs(';'.join('{}>{}'.format(idx2(a), idx2(b)) for a, b in res) or '_')  # noqa
+    ctx.case('c02 planar.cmwpm {} {} {} {} {}'.format(R, C, bits(s), mP, mD),
+             '{} pm=11 P={} D={}'.format(bits(r), mt(lastP['result']), mt(lastD['result'])),
+             nontrivial=bool(np.any(s)), meta=meta, post=post_cmwpm)
+    ctx.case('c02 planar.cmwpm.graph {} {} {}'.format(R, C, bits(s)), 'P={} D={}'.format(gPtxt, gDtxt),
+             nontrivial=bool(np.any(s)), meta=meta, post=post_graph)
+
+
 def run_planar_cmwpm(ctx, acc, rec):
     q = ctx.quick()
     sizes = [(2, 2), (2, 3), (3, 2), (3, 3), (2, 5), (4, 3), (4, 4), (5, 5), (3, 6)] if q else \
         [(r, c) for r in range(2, 8) for c in range(2, 8)]
     for dspec in cmwpm_configs(ctx):
-        kw = dict(dspec[1])
-        mi = kw.get('max_iterations', 4)
         for (R, C) in sizes:
             spec = ('planar', R, C)
-            code, S, _ = code_of(spec)
             cases, exh = syndromes_for_tie(ctx, spec, 4 if q else 7, 6 if q else 25, 5 if q else 12)
             if not exh and q:
                 cases = ctx.rng.sample(cases, min(len(cases), 14))
             elif not exh:
                 cases = ctx.rng.sample(cases, min(len(cases), 40))
             for e, s in cases:
-                rec.reset()
-                em = ctx.rng.choice(EMS_ANY); p = ctx.rng.choice(PS)
-                r = evaluate(ctx, acc, spec, dspec, em, p, e, s, exhaustive=exh)
-                if r is None:
-                    continue
-                meta = {'kind': 'cmwpm', 'code': list(spec), 'decoder': [dspec[0], kw], 'syndrome': bits(s),
-                        'error': bits(e)}
-                if mi == 0:
-                    ctx.case('c02 planar.cmwpm0 {} {}'.format(R, C), bits(r), nontrivial=bool(np.any(s)), meta=meta)
-                    continue
-                gc = rec.grid_calls
-                if len(gc) < 2 or gc[-1]['gt'] is None or gc[-2]['gt'] is None:
-                    ctx.case('c02 planar.cmwpm-calls', 'StepGrid.mwpm called {} times'.format(len(gc)), meta=meta)
-                    continue
-                lastP = [c for i, c in enumerate(gc) if i % 2 == 0][-1]
-                lastD = [c for i, c in enumerate(gc) if i % 2 == 1][-1]
-                mP, gPtxt = cnode_txt(code, *lastP['gt'])
-                mD, gDtxt = cnode_txt(code, *lastD['gt'])
-                mt = lambda res: canon_pairs(';'.join('{}>{}'.format(idx2(a), idx2(b)) for a, b in res) or '_')  # noqa
-                ctx.case('c02 planar.cmwpm {} {} {} {} {}'.format(R, C, bits(s), mP, mD),
-                         '{} pm=11 P={} D={}'.format(bits(r), mt(lastP['result']), mt(lastD['result'])),
-                         nontrivial=bool(np.any(s)), meta=meta, post=post_cmwpm)
-                ctx.case('c02 planar.cmwpm.graph {} {} {}'.format(R, C, bits(s)), 'P={} D={}'.format(gPtxt, gDtxt),
-                         nontrivial=bool(np.any(s)), meta=meta, post=post_graph)
+                cmwpm_case(ctx, acc, rec, spec, dspec, e, s, exh)
 
 
 def tn_configs(name, q, has_stp=True, has_mode=True):
@@ -749,15 +962,70 @@ def run_tn(ctx, acc):
                         tn_coset_case(ctx, spec, dspec, s, a, sample)
 
 
-def run_planar_y(ctx, acc):
+PLANAR_Y_MAX = 12
+
+
+def planar_y_sizes(ctx):
+    """the decoder is a look-up (coprime: destabilizers; one side divides the other: partial recoveries; otherwise a
+    table of products of boundary operators), so the three arithmetic classes of (R, C) are what matters: thorough =
+    all 2 <= R, C <= 12; quick = every pair with gcd(R, C) not in {1, R, C} + the small sizes + a seed-rotated sample
+    of the coprime and of the dividing pairs"""
+    import math
+    allp = [(r, c) for r in range(2, PLANAR_Y_MAX + 1) for c in range(2, PLANAR_Y_MAX + 1)]
+    if not ctx.quick():
+        return allp
+    table = [t for t in allp if math.gcd(*t) not in (1, t[0], t[1])]
+    small = [(2, 2), (2, 3), (3, 2), (3, 3), (2, 4), (4, 2), (3, 4), (4, 4), (3, 5), (5, 5), (6, 3)]
+    coprime = [t for t in allp if math.gcd(*t) == 1 and t not in small]
+    divides = [t for t in allp if math.gcd(*t) in t and t not in small]
+    return sorted(set(table + small + ctx.rng.sample(coprime, 4) + ctx.rng.sample(divides, 4)))
+
+
+def planar_y_cases(ctx, spec, table):
+    """Y-only errors: (exhaustive over the syndromes of Y-only errors when that space is small, else) every weight-1
+    error on the rim + sampled elsewhere, every weight-<=2 error within one boundary, several defects on one boundary
+    (subsets of sizes 3..6, stride patterns), the localised rim / corner errors, random errors of every weight 1..6 and
+    of spread weights"""
     q = ctx.quick()
+    code, S, _ = code_of(spec)
+    n = S.shape[1] // 2
+    cases, exh = error_cases(ctx, spec, yonly=True, exhaustive_rank=9 if q else 12, n_random=(12 if q else 40),
+                             singles=not q)
+    if exh:
+        return cases, True
+    extra = boundary_subset_errors(ctx, spec, 'Y', all_upto=2, cap3=((16 if table else 6) if q else 120),
+                                   n_more=((3 if table else 2) if q else 25))
+    if q and not table:  # quick: all weight-<=2 rim errors on the table class and the small sizes only
+        w2 = [c for c in extra if c[1] == 'rim-w2']
+        extra = [c for c in extra if c[1] != 'rim-w2'] + ctx.rng.sample(w2, min(len(w2), 40))
+    extra += localised_errors(spec, yonly=True)
+    for w in range(1, 7):
+        for _ in range((2 if q else 12)):
+            if w <= n:
+                extra.append((random_error(ctx.rng, n, w, True), 'w%d' % w))
+    if q:
+        for qb in ctx.rng.sample(range(n), min(n, 12)):
+            e = np.zeros(2 * n, dtype=int); e[qb] = 1; e[n + qb] = 1
+            extra.append((e, 'w1'))
+    seen = set(bits(e) for e, _, _ in cases)
+    for e, s, tag in with_syndromes(spec, extra):
+        b = bits(e)
+        if b not in seen:
+            seen.add(b); cases.append((e, s, tag))
+    return cases, False
+
+
+def run_planar_y(ctx, acc):
+    import math
     dspec = D('PlanarY')
-    sizes = [(2, 2), (2, 3), (3, 2), (3, 3), (2, 4), (4, 2), (3, 4), (4, 4), (3, 5), (5, 5), (4, 6), (6, 3)] + \
-        ([] if q else [(6, 6), (7, 7), (5, 8), (2, 9), (9, 3), (8, 8)])
-    for (R, C) in sizes:
+    for (R, C) in planar_y_sizes(ctx):
         spec = ('planar', R, C)
-        cases, exh = error_cases(ctx, spec, yonly=True, exhaustive_rank=9 if q else 13, n_random=25 if q else 80)
-        for e, s, _ in cases:
+        g = math.gcd(R, C)
+        cls = 'coprime' if g == 1 else ('divides' if g in (R, C) else 'table')
+        cases, exh = planar_y_cases(ctx, spec, cls == 'table')
+        ctx.count('b_planar_y_class', cls)
+        for e, s, tag in cases:
+            ctx.count('b_planar_y_kind', tag)
             em = ctx.rng.choice([('bpf',), ('bpf',), ('dep',), ('bdep', 100, 'Y'), ('byx', 5)]); p = ctx.rng.choice(PS)
             evaluate(ctx, acc, spec, dspec, em, p, e, s, exhaustive=exh)
 
@@ -793,6 +1061,72 @@ def run_smwpm(ctx, acc):
                                                  n_random=(6 if q else 25))
                         for e, s, _ in cases:
                             evaluate(ctx, acc, spec, dspec, ('bpf',), ctx.rng.choice(PS), e, s, exhaustive=exh)
+
+
+def thin(ctx, cases, k, keep=('rim-single',)):
+    """quick tier: every case whose tag is in `keep` + k seed-rotated others; thorough: all"""
+    if not ctx.quick():
+        return cases
+    kept = [c for c in cases if c[2] in keep]
+    rest = [c for c in cases if c[2] not in keep]
+    return kept + ctx.rng.sample(rest, min(k, len(rest)))
+
+
+def run_lattice_grid(ctx, acc, rec):
+    """every lattice decoder on the SHAPE grid (tall / wide x same / opposite parity of rows and cols, up to 8) with
+    errors localised at the four corners and along the four boundaries, in finite-bias contexts (any Pauli) and in the
+    infinite-bias context (Y-only errors, pure-Y model). The tensor-network decoders get a seed-rotated sample of the
+    same errors on their existing non-square sizes only (their cost grows with the size)."""
+    q = ctx.quick()
+    # matching decoders on the planar / toric lattice (context is ignored by them: rotated as elsewhere)
+    cm = [c for c in cmwpm_configs(ctx) if dict(c[1]).get('max_iterations', 4) != 0]
+    for (R, C) in size_grid(ctx, 2, 8, n_extra=1 if q else 0):
+        spec = ('planar', R, C)
+        ctx.count('grid_size', 'planar:{}x{}'.format(R, C))
+        cases = with_syndromes(spec, localised_errors(spec))
+        for e, s, tag in thin(ctx, cases, 30):
+            planar_mwpm_case(ctx, acc, rec, spec, e, s, False)
+        for dspec in [D('PlanarCMWPM')] + ctx.rng.sample(cm, 1 if q else 4):
+            for e, s, tag in thin(ctx, cases, 10, keep=()) if q else thin(ctx, cases, 0):
+                cmwpm_case(ctx, acc, rec, spec, dspec, e, s, False)
+    for (R, C) in size_grid(ctx, 2, 8, n_extra=1 if q else 0):
+        spec = ('toric', R, C)
+        ctx.count('grid_size', 'toric:{}x{}'.format(R, C))
+        for e, s, tag in thin(ctx, with_syndromes(spec, localised_errors(spec)), 30):
+            toric_mwpm_case(ctx, acc, rec, spec, e, s, False)
+    # symmetry-matching decoders: the context decides the graph (finite bias: any Pauli; infinite bias: Y-only)
+    for name, fam, sizes in (('RotatedPlanarSMWPM', 'rplanar', size_grid(ctx, 3, 8, n_extra=1)),
+                             ('RotatedToricSMWPM', 'rtoric', size_grid(ctx, 2, 8, step=2, n_extra=1))):
+        for (R, C) in sizes:
+            spec = (fam, R, C)
+            ctx.count('grid_size', '{}:{}x{}'.format(fam, R, C))
+            fin = with_syndromes(spec, localised_errors(spec))
+            inf = with_syndromes(spec, localised_errors(spec, yonly=True))
+            kws = [{}, {'eta': ctx.rng.choice([0.5, 10, 1000.0])}]
+            if fam == 'rtoric':
+                kws.append({'itp': True})
+            for kw in kws:
+                dspec = D(name, **kw)
+                for e, s, tag in thin(ctx, fin, 15) if not kw else thin(ctx, fin, 20, keep=()):
+                    em = ctx.rng.choice(EMS_FINITE_BIAS if 'eta' not in kw else EMS_FINITE_BIAS + [('bpf',)])
+                    evaluate(ctx, acc, spec, dspec, em, ctx.rng.choice(PS), e, s)
+                if 'eta' not in kw:
+                    for e, s, tag in thin(ctx, inf, 10):
+                        evaluate(ctx, acc, spec, dspec, ('bpf',), ctx.rng.choice(PS), e, s)
+    # tensor-network decoders: sizes NOT enlarged
+    tn = [('PlanarMPS', [('planar', 2, 3), ('planar', 3, 2), ('planar', 4, 3), ('planar', 2, 4), ('planar', 3, 6),
+                         ('planar', 6, 5)]),
+          ('PlanarRMPS', [('planar', 2, 3), ('planar', 3, 2), ('planar', 4, 3), ('planar', 2, 4), ('planar', 3, 6)]),
+          ('RotatedPlanarMPS', [('rplanar', 3, 4), ('rplanar', 4, 3), ('rplanar', 3, 5), ('rplanar', 5, 4),
+                                ('rplanar', 4, 7)]),
+          ('RotatedPlanarRMPS', [('rplanar', 3, 4), ('rplanar', 4, 3), ('rplanar', 3, 5), ('rplanar', 5, 4),
+                                 ('rplanar', 4, 7)])]
+    for name, specs in tn:
+        for spec in specs:
+            cases = with_syndromes(spec, localised_errors(spec))
+            for dspec in (D(name, chi=2), D(name, chi=4, mode='a')):
+                for e, s, tag in ctx.rng.sample(cases, min(len(cases), 4 if q else 40)):
+                    evaluate(ctx, acc, spec, dspec, ctx.rng.choice(EMS_ANY), ctx.rng.choice(PS), e, s)
 
 
 def run_naive(ctx, acc):
@@ -891,6 +1225,7 @@ def run(ctx):
         _timed(ctx, 'planar_mwpm', run_planar_mwpm, ctx, acc, rec)
         _timed(ctx, 'toric_mwpm', run_toric_mwpm, ctx, acc, rec)
         _timed(ctx, 'planar_cmwpm', run_planar_cmwpm, ctx, acc, rec)
+        _timed(ctx, 'lattice_grid', run_lattice_grid, ctx, acc, rec)
     _timed(ctx, 'naive', run_naive, ctx, acc)
     _timed(ctx, 'planar_y', run_planar_y, ctx, acc)
     _timed(ctx, 'smwpm', run_smwpm, ctx, acc)
@@ -950,9 +1285,69 @@ def check_recipe(recipe):
     return None if ok else why
 
 
+_SM_DONE = set()
+
+
+def search_smwpm(meta, budget_s=90.0):
+    """a correspondence break of one of the symmetry-matching decoders (c02_smwpm: graph / clusters / corners / path /
+    recovery differs from the model): look for an input on which the real decode violates the property — the recorded
+    size first, then its transpose and the whole shape grid (a corner / path slip may be harmless on one shape and not
+    on another), rim-localised then random errors, finite- and infinite-bias contexts"""
+    import time
+    t0 = time.time()
+    toric = bool(meta.get('toric'))
+    fam, name = ('rtoric', 'RotatedToricSMWPM') if toric else ('rplanar', 'RotatedPlanarSMWPM')
+    size = tuple(meta.get('size') or ())
+    grid = [(r, c) for r in range(2 if toric else 3, 9, 2 if toric else 1) for c in range(2 if toric else 3, 9, 2 if toric else 1)]
+    grid.sort(key=lambda s: (s[0] * s[1], s))
+    sizes = ([size, size[::-1]] if len(size) == 2 else []) + grid
+    kws = [{}]
+    if isinstance(meta.get('eta'), (int, float)):
+        kws.append({'eta': meta['eta']})
+    rng = pyrandom.Random(12345)
+    # the recorded input itself (ideal decodes only: FTP is C03's)
+    if meta.get('ideal') and len(size) == 2 and isinstance(meta.get('rows'), str) and '/' not in meta['rows']:
+        recipe = {'code': [fam] + list(size), 'decoder': [name, kws[-1]], 'error_model': list(meta.get('em') or ['dep']),
+                  'p': meta.get('p') or 0.1, 'syndrome': meta['rows'], 'error': None}
+        why = check_recipe(recipe)
+        if why:
+            return {'what': 'C02 fails on the real code: ' + why, 'input': recipe}
+    done = _SM_DONE  # finish() calls search once per mismatch: the sweep of a (size, context) is made once per run
+    kwkey = json.dumps(kws, sort_keys=True)
+    for pass_ in ('localised', 'random'):
+        for sz in sizes:
+            if (fam, kwkey, pass_, sz) in done:
+                continue
+            done.add((fam, kwkey, pass_, sz))
+            spec = (fam,) + tuple(sz)
+            try:
+                code, S, _ = code_of(spec)
+            except Exception:  # noqa: BLE001 - not a valid size
+                continue
+            n = S.shape[1] // 2
+            for yonly in (False, True):
+                if pass_ == 'localised':
+                    errs = [e for e, _ in localised_errors(spec, yonly=yonly)]
+                else:
+                    errs = [random_error(rng, n, rng.randint(1, max(1, n // 2)), yonly) for _ in range(60)]
+                for kw in (kws if not yonly else [{}]):
+                    for em in ([['bpf']] if yonly else [['bdep', 10, 'Y'], ['dep']]):
+                        for e in errs:
+                            if time.time() - t0 > budget_s:
+                                return None
+                            recipe = {'code': list(spec), 'decoder': [name, kw], 'error_model': em, 'p': 0.1,
+                                      'syndrome': bits(py_synd(S, e)), 'error': bits(e)}
+                            why = check_recipe(recipe)
+                            if why:
+                                return {'what': 'C02 fails on the real code: ' + why, 'input': recipe}
+    return None
+
+
 def search(m):
     """is the PROPERTY false on the real code for the disagreeing case or its neighbourhood?"""
     meta = m.get('meta') or {}
+    if str(meta.get('kind', '')).startswith('smwpm'):
+        return search_smwpm(meta)
     if 'code' not in meta or 'decoder' not in meta:
         return None
     spec = tuple(meta['code'])
@@ -970,6 +1365,9 @@ def search(m):
     us = unit_errors(n, yonly)
     for e in us:
         cands.append((bits(py_synd(S, e)), bits(e)))
+    if spec[0] in ('planar', 'toric', 'rplanar', 'rtoric'):
+        for e, _ in localised_errors(spec, yonly=yonly):
+            cands.append((bits(py_synd(S, e)), bits(e)))
     rng = pyrandom.Random(12345)
     for _ in range(200):
         a, b = rng.sample(range(len(us)), 2)
